@@ -104,16 +104,42 @@ CodeOf(a) == IF cfg.mock THEN MockCode(a.p.phone, cfg.len) ELSE a.sms[1].code
 
 (* Verify succeeds iff a code was sent to that pair, this attempt is within *)
 (* the limit, code and hash are the ones of the latest send, lifetime ok.  *)
-Due(a) ==
-  /\ Sent(a.p)
-  /\ gs[a.p].tries + 1 <= cfg.maxVerify
-  /\ a.code = gs[a.p].code /\ a.hash = gs[a.p].hash
-  /\ cfg.ttl
+(* (written for `t` attempts made so far, so that runs of calls can be judged) *)
+Matches(a) == Sent(a.p) /\ a.code = gs[a.p].code /\ a.hash = gs[a.p].hash /\ cfg.ttl
+Tries(p)   == IF Sent(p) THEN gs[p].tries ELSE 0
+DueT(a, t) == Matches(a) /\ t + 1 <= cfg.maxVerify
+Due(a)     == DueT(a, Tries(a.p))
 
-VerifyLegal(a) ==
-  /\ a.r \in {"ok", "limit", "fail"}
-  /\ a.r = "ok" <=> Due(a)
-  /\ a.r = "limit" => Sent(a.p) /\ gs[a.p].tries + 1 > cfg.maxVerify
+VerifyLegalT(a, r, t) ==
+  /\ r \in {"ok", "limit", "fail"}
+  /\ r = "ok" <=> DueT(a, t)
+  /\ r = "limit" => Sent(a.p) /\ t + 1 > cfg.maxVerify
+VerifyLegal(a) == VerifyLegalT(a, a.r, Tries(a.p))
+
+(* A RUN: the same verification `times` times in a row, replies run-length  *)
+(* encoded as <<[r, c], ...>>.  Closed form of `times` single steps (TLC    *)
+(* checks the agreement, RunAgrees): the first Within(a) calls are within   *)
+(* the limit and answer by the merits, all later ones are refused.          *)
+Within(a) == IF Sent(a.p) /\ cfg.maxVerify - gs[a.p].tries > 0
+             THEN cfg.maxVerify - gs[a.p].tries ELSE 0
+VerifyRunLegal(a, times, rle) ==
+  LET k      == Within(a)
+      merit  == IF Matches(a) THEN "ok" ELSE "fail"
+      beyond == IF Sent(a.p) THEN {"limit", "fail"} ELSE {"fail"}
+      RECURSIVE Walk(_, _)
+      Walk(i, done) ==
+        IF i > Len(rle) THEN done = times
+        ELSE /\ rle[i].c >= 1
+             /\ done < k => rle[i].r = merit
+             /\ done + rle[i].c > k => rle[i].r \in beyond
+             /\ Walk(i + 1, done + rle[i].c)
+  IN times >= 1 /\ Walk(1, 0)
+
+(* a run of sends that were all refused: nothing changes, so one judgement covers all *)
+SendRunLegal(a, times, rle) ==
+  /\ times >= 1 /\ Len(rle) = 1 /\ rle[1].r = "refused" /\ rle[1].c = times
+  /\ SendMay(a.p) /\ a.stable
+  /\ cfg.mock \/ a.nsms = 0
 
 Legal(a) ==
   CASE a.op = "send"   -> SendLegal(a)
@@ -150,6 +176,11 @@ Ghost(a) ==
          THEN gs' = [gs EXCEPT ![a.p].tries = Least(@ + 1, VCap + 1)]
          ELSE gs' = gs
     [] OTHER -> FALSE
+
+GhostRun(a, times) ==
+  IF a.op = "verify" /\ Sent(a.p)
+  THEN gs' = [gs EXCEPT ![a.p].tries = Least(@ + times, VCap + 1)]
+  ELSE gs' = gs
 
 (* ----------------------------------------------------------------------- *)
 (* MECHANISM layer (vcode/vlogic.go, vcode/code.go, idgen/random/util.go)  *)
@@ -256,6 +287,7 @@ P(ar, ph) == [area |-> ar, phone |-> ph]
 (* ("1","23") and ("12","3") concatenate alike; ("1","3") shares area / phone with them *)
 Pairs2 == {P(<<49>>, <<50, 51>>), P(<<49, 50>>, <<51>>)}
 Pairs3 == Pairs2 \cup {P(<<49>>, <<51>>)}
+Pairs1 == {P(<<49>>, <<50, 51>>)}
 (* limits including a negative one (cfg files cannot hold negative literals) *)
 CountsX   == {-1, 0, 1, 2}
 VerifiesX == {-1, 0, 1, 2, 3}
@@ -311,6 +343,14 @@ Coupled ==
          LET c == ent[SendKey(p)] IN
            /\ c.code = gs[p].code /\ c.hash = gs[p].hash /\ c.vcnt = gs[p].tries
            /\ cfg.win => c.scnt = gs[p].sends
+
+(* the closed form for runs says what the single steps say (runs of 1..3, unit segments) *)
+RunAgrees ==
+  \A p \in PairSet, cref \in {"cur", "bad"}, href \in {"cur", "old"}, n \in 1..3 :
+    LET a == [p |-> p, code |-> RefCode(p, cref), hash |-> RefHash(p, href)] IN
+    \A rs \in [1..n -> {"ok", "limit", "fail"}] :
+      (\A i \in 1..n : VerifyLegalT(a, rs[i], Least(Tries(p) + i - 1, VCap + 1)))
+        <=> VerifyRunLegal(a, n, [i \in 1..n |-> [r |-> rs[i], c |-> 1]])
 
 (* per window at most maxCount+1 codes go out to one pair; with the       *)
 (* interval never respected, one                                          *)
